@@ -54,6 +54,13 @@ def summaries_of(prog):
 def make_executor(prog, harness, opts=None):
     ex = Executor(prog, opts or {})
     ex.summaries = summaries_of(prog)
+    if (opts or {}).get('cuts') == 'reduce':
+        import cuts
+        for callee, cutname in cuts.REDUCE_CUTS.items():
+            ex.cuts[callee] = getattr(cuts, cutname)
+    elif (opts or {}).get('cuts') == 'add':
+        import cuts
+        ex.cuts['(%s.Decimal).add' % prog.pkg] = cuts.cut_add
     if harness.startswith('vh_lemma_'):
         _, _, recv, meth = harness.split('_', 3)
         ex.summaries.pop('(%s.%s).%s' % (prog.pkg, recv, meth), None)
